@@ -271,7 +271,23 @@ fn eval_geno(c: &GenoCase, scratch: Option<&Scratch>) -> Vec<Viol> {
                 cs.push_gts(&gts);
             }
             let vcf = to_vcf(&cs).0;
-            let created = run_sfs(&["create", "-s", &sample_arg(&map)], Stdin::Bytes(&vcf), scratch);
+            // the sample list names every sample, in an order other than the column order (the
+            // columns rotated by one): the populations become axes in the order of their first
+            // appearance in the list, and every sample keeps its own genotypes
+            let s_total = map.len();
+            let order: Vec<usize> = (0..s_total).map(|i| (i + 1) % s_total).collect();
+            let mut pop_order: Vec<usize> = Vec::new();
+            for &i in &order {
+                let p = map[i].unwrap();
+                if !pop_order.contains(&p) {
+                    pop_order.push(p);
+                }
+            }
+            let list_arg = order.iter().map(|&i| format!("s{i}=p{}", map[i].unwrap())).collect::<Vec<_>>().join(",");
+            let pops_listed: Vec<Vec<usize>> = pop_order.iter().map(|&p| pops[p].clone()).collect();
+            let expect: Vec<f64> = stats.iter().map(|s| stat_from_genotypes(s, &sites, &pops_listed)).collect();
+            let _ = sample_arg(&map);
+            let created = run_sfs(&["create", "-s", &list_arg], Stdin::Bytes(&vcf), scratch);
             if !created.ok() {
                 viols.push(("C06|cli|create-failed".into(), format!("sizes {:?}: {}", c.sizes, created.stderr_str()), case("-")));
                 return viols;
@@ -401,6 +417,23 @@ pub(super) fn stat_after_histories(prop: &str) -> (u64, Vec<Viol>) {
         }
     }
     (n, viols)
+}
+
+/// `sfs stat` on an npy file of type `descr` against `sfs stat` on the text spelling of the values the
+/// file holds (exactly, with round-trip digits): the same statistics row, byte for byte.
+fn eval_npy_input(shape: &[usize], descr: &str, version: u8, scratch: &Scratch) -> Option<Viol> {
+    let (npy, text) = super::typed_npy_and_text(shape, descr, version);
+    let stats = stats_for_dim(shape).join(",");
+    let a = run_sfs(&["stat", "-s", &stats, "--precision", "12", "-H"], Stdin::Bytes(text.as_bytes()), scratch);
+    let b = run_sfs(&["stat", "-s", &stats, "--precision", "12", "-H"], Stdin::Bytes(&npy), scratch);
+    if a.ok() && b.ok() && a.stdout == b.stdout {
+        return None;
+    }
+    Some((
+        format!("C06|cli|npy-input-differs-from-text|{}", descr.trim_start_matches(['<', '>', '|'])),
+        format!("shape {shape:?} stored as {descr} (format {version}.0): `sfs stat -s {stats}` gives {} {:?} on the npy file and {} {:?} on the same values as text", b.status_str(), b.stdout_str(), a.status_str(), a.stdout_str()),
+        J::obj([("kind", J::s("c06-npy-input")), ("shape", J::usizes(shape)), ("descr", J::s(descr)), ("version", J::Int(version as i64))]),
+    ))
 }
 
 /// The spectra of the report-format grid.
@@ -743,6 +776,24 @@ pub fn run(tier: Tier) -> i32 {
             extra: vec![],
         });
     }
+    {
+        let mut sp: Vec<(Vec<String>, Vec<u8>)> = Vec::new();
+        for which in 0..2usize {
+            let input = crate::subject::text_of(&format_spectrum(which)).into_bytes();
+            let names = FORMAT_STATS[which];
+            for a in 0..names.len() {
+                for b in 0..names.len() {
+                    let list = format!("{},{}", names[a], names[b]);
+                    sp.push((vec!["stat".into(), "-s".into(), list.clone()], input.clone()));
+                    if (a + b) % 2 == 0 {
+                        sp.push((vec!["stat".into(), "-s".into(), list.clone(), "-H".into(), "-d".into(), ";".into(), "-p".into(), "2,5".into()], input.clone()));
+                    }
+                }
+            }
+            sp.push((vec!["stat".into(), "--statistics".into(), names.join(","), "--header".into(), "--precision".into(), "4".into()], input.clone()));
+        }
+        super::spelling_part(&mut rep, "C06", "stat with every ordered pair of statistics, alone and with header, delimiter and a precision list", &sp, &scratch);
+    }
     // report format: every ordered list of up to three statistics x header x delimiter x precision
     // form x input format - the i-th value is the i-th statistic asked for, whatever else is asked
     {
@@ -794,6 +845,26 @@ pub fn run(tier: Tier) -> i32 {
             extra: vec![],
         });
     }
+    {
+        let mut nj: Vec<(Vec<usize>, &'static str, u8)> = Vec::new();
+        for shape in [vec![9usize], vec![3, 5], vec![3, 3, 3], vec![3, 3, 3, 3]] {
+            for (k, descr) in ["<f8", ">f8", "<f4", ">f4", "|u1", "|i1", "<u2", ">u2", "<i2", ">i2", "<u4", ">u4", "<i4", ">i4", "<u8", ">u8", "<i8", ">i8"].into_iter().enumerate() {
+                nj.push((shape.clone(), descr, [1u8, 2, 3][(k + shape.len()) % 3]));
+            }
+        }
+        let res = par_map(nj.len(), |i| eval_npy_input(&nj[i].0, nj[i].1, nj[i].2, &scratch));
+        for v in res.into_iter().flatten() {
+            rep.violation(v.0, v.1, v.2);
+        }
+        rep.part(Part {
+            name: "cli: statistics of npy files of every element type".into(),
+            evaluations: nj.len() as u64,
+            nontrivial: nj.len() as u64,
+            note: "spectra with 1..4 axes stored as f8, f4 (entries with a fractional part that is not a short decimal), and the signed and unsigned integers of 1, 2, 4 and 8 bytes (entries beyond the range of the next smaller and of the signed type), little- and big-endian, format 1.0 / 2.0 / 3.0 in turn: every admissible statistic against the same values given as text, byte for byte at 12 decimals".into(),
+            exhaustive: true,
+            extra: vec![],
+        });
+    }
     rep.sample(J::obj([
         ("population_sizes", J::usizes(&[1, 3])),
         ("argv", J::s("sfs create -s s0=p0,s1=p1,s2=p1,s3=p1 | sfs stat -s f2,fst,pi-xy,s,sum --precision 12 -H")),
@@ -813,6 +884,11 @@ pub fn run(tier: Tier) -> i32 {
 
 pub fn replay(case: &J) -> Option<Vec<String>> {
     match case.get("kind")?.as_str()? {
+        "c06-npy-input" => {
+            let scratch = Scratch::new("c06r");
+            let descr: &'static str = ["<f8", ">f8", "<f4", ">f4", "|u1", "|i1", "<u2", ">u2", "<i2", ">i2", "<u4", ">u4", "<i4", ">i4", "<u8", ">u8", "<i8", ">i8"].into_iter().find(|d| Some(*d) == case.get("descr").and_then(|x| x.as_str()))?;
+            Some(eval_npy_input(&case.get("shape")?.as_usizes()?, descr, case.get("version")?.as_i64()? as u8, &scratch).into_iter().map(|(k, w, _)| format!("{k} :: {w}")).collect())
+        }
         "c06-genotypes" => {
             let c = GenoCase { sizes: case.get("population_sizes")?.as_usizes()? };
             let scratch = Scratch::new("c06r");
